@@ -82,9 +82,11 @@ type decision struct {
 	from, to  int
 }
 
-// Decisions splits a cycle's calls into committed decisions: a run of Evicts naming one preemptor followed by the
-// placements up to the next Evict (which is how one Statement.Commit appears in the record).
-func Decisions(calls []Call) []decision {
+// Decisions splits a cycle's calls into committed eviction decisions: a run of Evicts naming one preemptor,
+// followed by the placements that belong to the same Statement.Commit - pods of the preemptor and victims of this
+// very decision that are re-placed. A placement of any other workload starts something else (e.g. a later
+// decision that needs no victims because capacity is already releasing).
+func Decisions(calls []Call, workloadOf func(pod string) string) []decision {
 	var out []decision
 	i := 0
 	for i < len(calls) {
@@ -93,11 +95,13 @@ func Decisions(calls []Call) []decision {
 			continue
 		}
 		d := decision{preemptor: calls[i].Preemptor, action: calls[i].Action, from: i}
+		victims := map[string]bool{}
 		j := i
 		for j < len(calls) && calls[j].Kind == "evict" && calls[j].Preemptor == d.preemptor && calls[j].Action == d.action {
+			victims[calls[j].Pod] = true
 			j++
 		}
-		for j < len(calls) && calls[j].Kind != "evict" {
+		for j < len(calls) && calls[j].Kind != "evict" && (victims[calls[j].Pod] || workloadOf(calls[j].Pod) == d.preemptor) {
 			j++
 		}
 		d.to = j
@@ -135,7 +139,13 @@ func CheckVictims(w *World, rec *CycleRecord) ([]Finding, VictimFacts) {
 		}
 	}
 
-	for _, d := range Decisions(rec.Calls) {
+	workloadOf := func(pod string) string {
+		if pv := rec.Before.ByName[pod]; pv != nil {
+			return pv.Workload
+		}
+		return ""
+	}
+	for _, d := range Decisions(rec.Calls, workloadOf) {
 		pre := wls[d.preemptor]
 		placedPreemptor := false
 		moved := map[string]string{} // pod -> node it was nominated to inside this decision
